@@ -75,6 +75,12 @@ def lemma_handle_new(ctx):
     saw = set()
     for p in paths:
         names = trace_names(p)
+        if p.ghost.get("stat_swallowed"):
+            # a stat of the destination failed and exists()/is_dir() answered "no": nothing may be decided on that
+            (ctx.passed if (p.status == "return" and is_err(p.ret)) else ctx.fail)(
+                "C03/C04/C08/C09: a failed stat of the destination is an error, not 'nothing there' (no overwrite, skipped backup or skipped identity check rests on it)",
+                str(names), **({} if (p.status == "return" and is_err(p.ret)) else {"key": "stat-error-taken-for-absent"}))
+            continue
         if p.status != "return":
             ctx.fail("CopyHandle::new: path ends in return", "%s %s" % (p.status, p.msg))
             continue
@@ -156,9 +162,9 @@ def lemma_handle_new(ctx):
                 ctx.fail("C09: the old file is renamed away before the destination is re-created (kill-safe order)", str(names))
             else:
                 ctx.passed("C09: the old file is renamed away before the destination is re-created (kill-safe order)")
-            cond = z3.Or(z3.And(is_num, exists[0].ret.t if exists else z3.BoolVal(False)),
-                         z3.And(is_auto, exists[0].ret.t if exists else z3.BoolVal(False), hb[0].ret.t if hb else z3.BoolVal(False)))
-            ctx.lemma(eng, "C09: a backup is made only for numbered, or auto with an existing backup, and an existing destination", p.pc, cond)
+            there = fs_fact("exists", "to_path")       # the fact, whichever probe the code used
+            cond = z3.Or(z3.And(is_num, there), z3.And(is_auto, there, hb[0].ret.t if hb else z3.BoolVal(False)))
+            ctx.lemma(eng, "C09: a backup is made only for numbered, or auto with an existing backup, and an existing destination", p.pc + fs_axioms("to_path"), cond)
         else:
             saw.add("nobackup")
             # "an existing destination file": the path resolves to a regular file (the one File::create would truncate),
